@@ -21,7 +21,7 @@ META = {
                    "length n<=N and every operation, payloads and node positions are solver variables; an obligation "
                    "is discharged only when the whole path tree is exhausted and every path satisfies the full "
                    "representation invariant + identity oracle. Inductive step => histories of any length with size<=N.",
-    "bounds": {"quick": {"N": 6, "extend_len": "<=2"}, "thorough": {"N": 8, "extend_len": "<=3"}},
+    "bounds": {"quick": {"N": 6, "extend_len": "<=5"}, "thorough": {"N": 12, "extend_len": "<=6"}},
     "outside_bounds": ["lists longer than N", "payloads other than ints (payloads are only compared with ==, never "
                                                 "ordered or hashed by the list)", "nodes that do not belong to the list"],
     "assumptions": ["CrossHair's verdict 'Confirmed over all paths' and z3's unsat are trusted",
@@ -88,8 +88,8 @@ def _check(l, exp, tag):
     return h.ok()
 
 
-def step(d0: int, d1: int, d2: int, d3: int, d4: int, d5: int, d6: int, d7: int, i: int, j: int, x: int, y: int,
-         z: int, flag: bool) -> bool:
+def step(d0: int, d1: int, d2: int, d3: int, d4: int, d5: int, d6: int, d7: int, d8: int, d9: int, d10: int, d11: int,
+         i: int, j: int, x: int, y: int, z: int, x3: int, x4: int, x5: int, flag: bool) -> bool:
     """
     pre: 0 <= i < max(1, h.P['n'])
     pre: 0 <= j < max(1, h.P['n'])
@@ -97,7 +97,7 @@ def step(d0: int, d1: int, d2: int, d3: int, d4: int, d5: int, d6: int, d7: int,
     """
     n = h.P["n"]
     op = h.P["op"]
-    data = [d0, d1, d2, d3, d4, d5, d6, d7][:n]
+    data = [d0, d1, d2, d3, d4, d5, d6, d7, d8, d9, d10, d11][:n]
     l = DoublyLinkedList(data)
     nodes = list(l.iter_nodes())
     if len(nodes) != n:
@@ -117,7 +117,7 @@ def step(d0: int, d1: int, d2: int, d3: int, d4: int, d5: int, d6: int, d7: int,
             exp.insert(0, nd)
         elif op == "extend" or op == "pre_extend":
             m = h.P["m"]
-            xs = [x, y, z][:m]
+            xs = [x, y, z, x3, x4, x5][:m]
             if op == "extend":
                 l.extend(xs)
             else:
@@ -208,8 +208,8 @@ def _index_is(seq, obj):
     raise AssertionError("node not in expected sequence")
 
 
-def eq_depth(d0: int, d1: int, d2: int, d3: int, d4: int, d5: int, d6: int, d7: int, i: int, j: int,
-             flag: bool) -> bool:
+def eq_depth(d0: int, d1: int, d2: int, d3: int, d4: int, d5: int, d6: int, d7: int, d8: int, d9: int, d10: int,
+             d11: int, i: int, j: int, flag: bool) -> bool:
     """
     pre: 0 <= i < h.P['n']
     pre: 0 <= j < h.P['n']
@@ -219,7 +219,7 @@ def eq_depth(d0: int, d1: int, d2: int, d3: int, d4: int, d5: int, d6: int, d7: 
     # recurses along the links; if its nesting depth can grow with the position, a long list overflows the stack.
     n = h.P["n"]
     op = h.P["op"]
-    data = [d0, d1, d2, d3, d4, d5, d6, d7][:n]
+    data = [d0, d1, d2, d3, d4, d5, d6, d7, d8, d9, d10, d11][:n]
     if h.MODE == "replay":
         # confirm the candidate on the real code: same equality pattern, every element repeated K times
         K = 3000 // max(1, n) + 1
@@ -273,8 +273,8 @@ def _do(l, op, a, b, flag):
 
 def jobs(tier):
     T = 90 if tier == "quick" else 600
-    N = 6 if tier == "quick" else 8
-    M = 2 if tier == "quick" else 3
+    N = 6 if tier == "quick" else 12
+    M = 5 if tier == "quick" else 6
     out = []
     for op in OPS:
         for n in range(0, N + 1):
